@@ -36,7 +36,7 @@ theorem proxy_fault_miss_or_error (C : Codec) (d : Disk) (l : Lru) (kind : Kind)
     (fs ≤ d.cfg.maxProxyBlobSize → (isSizeMismatch size fs = true ∨ fs < 0) →
       (fetchFromProxy C d l kind hash size offset zstd (.found s fs) rnd).2 = .miss) ∧
     (fs ≤ d.cfg.maxProxyBlobSize → isSizeMismatch size fs = false → 0 ≤ fs → s.fault = true →
-      (fetchFromProxy C d l kind hash size offset zstd (.found s fs) rnd).2 = .err .e500) :=
+      ∃ c, (fetchFromProxy C d l kind hash size offset zstd (.found s fs) rnd).2 = .err c) :=
   fetch_fault_no_hit C d l kind hash size offset zstd rnd s fs
 
 /-- **no fault poisons the cache or leaks reserved space or files**: whatever the back end answers,
